@@ -199,6 +199,10 @@ pub fn configs(tier: crate::registry::Tier, _seed: u64) -> Vec<crate::registry::
         v.push(entry(Snf { ring, m, n, b, flags: all, lll_path: true, diag: false }, cls, secs));
     }
     v.push(entry(Snf { ring: RingSel::Z, m: 2, n: 2, b: 1, flags: [false, true, true, false], lll_path: true, diag: false }, 300, 40.0));
+    // 4x4 and 5x5: queries beyond the solver; solver-sampled inputs only (nothing reported as proven)
+    v.push(crate::registry::sampled(Snf { ring: RingSel::Z, m: 4, n: 4, b: 9, flags: all, lll_path: false, diag: false }, if tier == Tier::Thorough { 400 } else { 60 }, 120.0));
+    v.push(crate::registry::sampled(Snf { ring: RingSel::Z, m: 5, n: 4, b: 9, flags: all, lll_path: true, diag: false }, if tier == Tier::Thorough { 200 } else { 30 }, 120.0));
+    v.push(crate::registry::sampled(Snf { ring: RingSel::Gauss, m: 3, n: 3, b: 3, flags: all, lll_path: false, diag: false }, if tier == Tier::Thorough { 200 } else { 30 }, 120.0));
     // diagonal inputs: the divisibility-chain normalisation on its own (3 or 4 symbolic entries, wider box)
     v.push(entry(Snf { ring: RingSel::Z, m: 3, n: 3, b: 6, flags: all, lll_path: false, diag: true }, 3000, 150.0));
     v.push(entry(Snf { ring: RingSel::Z, m: 2, n: 3, b: 8, flags: all, lll_path: false, diag: true }, 1000, 60.0));
